@@ -101,7 +101,6 @@ BASE_SPEC = {"model": "hertz_para", "preproc": "std", "range": "full", "range_ty
              "method_kws": "none", "gcf_k": 1.0, "edelta": False, "segment": 0}
 # user-visible changes that the GUI can produce by editing the profile between two sessions
 MAIN_ASPECTS = ["model", "range", "weight_cp", "preproc", "params", "range_type"]
-EPS = np.finfo(float).eps
 
 
 class InjectedFault(OSError):
@@ -287,7 +286,7 @@ class Env:
             if len(enums) != ncur or len(set(enums)) != ncur:
                 raise runner.HarnessError(f"{path} holds curves {enums}, expected {ncur} distinct ones")
             self.files.append({"path": path, "n": ncur, "hash": sha(blob)[:6], "sha": sha(blob), "enums": enums,
-                               "label": "synth" if f["kind"] == "synth" else f["name"].split("_")[1].split(".")[0]})
+                               "label": "synth" if f["kind"] == "synth" else f["name"][len("fmt-jpk-fd_"):].split(".")[0][:28]})
         self.fits = case["fits"]
         self.fitted = {}
         self.scratch_n = itertools.count()
@@ -484,20 +483,19 @@ def dump(path):
     return out
 
 
-def subtree(d, prefix):
-    return {k: v for k, v in d.items() if k == prefix or k.startswith(prefix + "/")}
-
-
 @contextlib.contextmanager
 def h5_write_hook(fault_at, log):
     """count (and optionally fail) every write call made through h5py's high-level API: creation of data sets
     and groups (require_group / require_dataset create through these), attribute writes, links and deletions"""
     import h5py._hl.attrs as ha
+    import h5py._hl.dataset as hd
     import h5py._hl.group as hg
-    G, A = hg.Group, ha.AttributeManager
+    G, A, D = hg.Group, ha.AttributeManager, hd.Dataset
     saved = {(c, n): getattr(c, n) for c, n in
              [(G, "create_dataset"), (G, "create_group"), (G, "__setitem__"), (G, "__delitem__"),
-              (A, "__setitem__"), (A, "create"), (A, "modify"), (A, "__delitem__")]}
+              (G, "copy"), (G, "move"),
+              (A, "__setitem__"), (A, "create"), (A, "modify"), (A, "__delitem__"),
+              (D, "__setitem__"), (D, "resize"), (D, "write_direct")]}
     depth = [0]
 
     def where(obj):
@@ -536,6 +534,8 @@ def h5_write_hook(fault_at, log):
     for (cls, meth) in saved:
         if cls is G:
             lab = (lambda m: lambda self, name: label_group(m.strip("_"), self, name))(meth)
+        elif cls is D:
+            lab = (lambda m: lambda self, name: "dataset-" + m.strip("_"))(meth)
         else:
             lab = (lambda m: lambda self, name: ("attr:" if m in ("__setitem__", "create") else
                                                  "attr-" + m.strip("_") + ":") + str(name))(meth)
@@ -854,7 +854,7 @@ def interpret(case, ctx, env, stats):
         keep = None
         if op.get("fault") is not None and kind in ("new", "again"):
             keep = fault_enumeration(ctx, env, model, tainted, idnt, user, stored, kind, desc, pre_blob, prev,
-                                     dkey, gkey, op["fault"]["keep"], stats)
+                                     dkey, gkey, op["fault"]["keep"], stats, key[0] in loose_data)
         if keep is not None:
             # continue the history behind the kept failed save
             blob, dmp, ratings = keep
@@ -920,7 +920,7 @@ def compact(spec):
 
 
 def fault_enumeration(ctx, env, model, tainted, idnt, user, stored, kind, desc, pre_blob, prev, dkey, gkey,
-                      keep_raw, stats):
+                      keep_raw, stats, data_loose):
     """fail every write call of this save in turn (on copies); returns the kept state or None"""
     outcome, calls, exc = do_save(env.scratch(pre_blob), idnt, user)
     if outcome != "ok":
@@ -949,8 +949,8 @@ def fault_enumeration(ctx, env, model, tainted, idnt, user, stored, kind, desc, 
         if kind == "again":
             diffs = diff_dumps(prev, dmp, user_only=gkey)
         else:
-            diffs = diff_dumps(prev, dmp, allowed_prefixes=[gkey, dkey] if (prev is None or dkey not in prev)
-                               else [gkey])
+            diffs = diff_dumps(prev, dmp, allowed_prefixes=[gkey, dkey] if (
+                prev is None or dkey not in prev or data_loose) else [gkey])
         ctx.check(not diffs, "failed-save-altered-other-entries", d, "; ".join(diffs)[:500])
         if n == keep_n and ratings is not None:
             kept = (path.read_bytes(), dmp, ratings)
